@@ -174,8 +174,36 @@ def recomputed_from_new_nodes(ctx):
                 cl = set()
                 for a in i2.args:
                     cl |= fd.slice_operand_pure(i2, a)["atoms"]
-                if call(ND("is_maintenance")) in cl and new_nodes in fd.slice_operand_pure(i2, i2.args[0])["locals"]:
-                    scans.append(i2)
+                if call(ND("is_maintenance")) in cl:
+                    # the scanned sequence is the new node vector itself: receiver chain iter()/deref()/& ... down to that local
+                    cur = i2.args[0]
+                    guard = 0
+                    rootl = None
+                    while cur is not None and cur.place is not None and guard < 10:
+                        guard += 1
+                        ds = [x for x in fd.defs.get(cur.place.local, ()) if x.kind != "param"]
+                        named = fd.body.local_name(cur.place.local)
+                        if cur.place.local == new_nodes:
+                            rootl = cur.place.local
+                            break
+                        if len(ds) != 1 and not (len(ds) >= 1 and all(x.kind in ("call-mut",) for x in ds[1:])):
+                            rootl = cur.place.local
+                            break
+                        i3 = ds[0].instr
+                        if i3 is None:
+                            break
+                        if i3.kind == "call" and i3.args:
+                            cur = i3.args[0]
+                        elif i3.kind == "assign" and i3.rv_kind() == "ref":
+                            from ..facts import Operand
+                            cur = Operand({"k": "copy", "pl": {"l": i3.ref_place().local, "p": []}})
+                        elif i3.kind == "assign" and i3.rv_kind() in ("use", "cast") and i3.ops:
+                            cur = i3.ops[0]
+                        else:
+                            rootl = cur.place.local
+                            break
+                    if rootl == new_nodes:
+                        scans.append(i2)
         ctx.decide(o, bool(scans), "an is_maintenance scan over the new node vector feeds the flag",
                    "the visits-maintenance flag of the new tour does not look at the remaining nodes: removing/displacing one of two "
                    "maintenance slots clears (or keeps) the flag wrongly", loc=site[0].line())
@@ -199,6 +227,55 @@ def cost_delta_form(ctx, s_sites):
             ctx.decide(o, field(SCHEDULE, "costs") in lhs or "param:" in " ".join(a for a in lhs if a.startswith("param:") and a != "param:1"),
                        "minuend derives from the running total", "`new_tour.costs() - old_tour.costs()` at %s: unsigned subtraction of two tour "
                        "costs underflows whenever the new tour is cheaper" % ins.line(), loc=ins.line())
+
+
+def componentwise_pair_updates(ctx):
+    """the cached (unserved passengers, unserved seated) pair is updated component by component"""
+    o, fd = ctx.require_fn("R5.unserved-pair-updated-componentwise", "T12", UTF,
+                           "component k of the cached unserved pair is updated with component k of the per-node value")
+    if fd is None:
+        return
+    seen = 0
+    bad = []
+    for ins in fd.body.instrs():
+        if ins.kind != "assign" or not ins.place.has_deref() or ins.rv_kind() not in ("use",):
+            continue
+        tf = [p["i"] for p in ins.place.proj if p["k"] == "field" and p.get("tuple")]
+        if len(tf) != 1:
+            continue
+        k = tf[0]
+        # value = (old.k' +/- x.j) : the binop behind the stored value and the tuple components its operands read
+        b = None
+        if ins.ops and ins.ops[0].place is not None:
+            ds = [d for d in fd.defs.get(ins.ops[0].place.local, ()) if d.kind != "param"]
+            if len(ds) == 1:
+                b = ds[0].instr
+        if b is None or b.kind != "assign" or b.rv_kind() != "binop":
+            continue
+        idx = set()
+        for op in b.ops:
+            if op.place is None:
+                continue
+            t = [p["i"] for p in op.place.proj if p["k"] == "field" and p.get("tuple")]
+            if t:
+                idx.add(t[0])
+                continue
+            d2 = direct_def_instr(fd, op)
+            if d2 is not None and d2.kind == "assign" and d2.rv_kind() == "use" and d2.ops and d2.ops[0].place is not None:
+                t = [p["i"] for p in d2.ops[0].place.proj if p["k"] == "field" and p.get("tuple")]
+                if t:
+                    idx.add(t[0])
+        if not idx:
+            continue
+        seen += 1
+        if idx != {k}:
+            bad.append((ins, k, idx))
+    if seen < 4:
+        ctx.undecided(o, "expected four component updates, recognised %d" % seen)
+    else:
+        ctx.decide(o, not bad, "%d updates, each reads its own component" % seen,
+                   "component %d of the cached pair is updated with component %s of the per-node value at %s" % (
+                       bad[0][1], sorted(bad[0][2]), bad[0][0].line()) if bad else "", loc=bad[0][0].line() if bad else None)
 
 
 def formation_update_order(ctx):
@@ -263,6 +340,7 @@ def rules(ctx):
     recomputed_from_new_nodes(ctx)
     cost_delta_form(ctx, s_sites)
     formation_update_order(ctx)
+    componentwise_pair_updates(ctx)
     cycle_update_rules(ctx)
     from . import order
     order.pair_order(ctx, "R3")
